@@ -11,7 +11,7 @@ VARIABLES l, nv, nt
 
 PL == INSTANCE Pillars
 
-Secs(a, b) == LET d == Diff(a, b) IN d[1] * 86400 + d[2]        \* a <= b, less than ~40 days apart
+Secs(a, b) == LET d == Diff(a, b) IN IF d[1] > 20000 THEN 2000000000 ELSE d[1] * 86400 + d[2]   \* a <= b; saturating (32-bit)
 Six(flat) == [i \in 1..(Len(flat) \div 6) |-> [k \in 1..6 |-> flat[6 * (i - 1) + k]]]
 Four(flat) == [i \in 1..(Len(flat) \div 4) |-> [k \in 1..4 |-> flat[4 * (i - 1) + k]]]
 
